@@ -85,6 +85,15 @@ def build_harness(tags=("verif",), race=False):
     cmd = ["go", "build", "-tags", ",".join(tags), "-o", tmp]
     if race:
         cmd.insert(2, "-race")
+    if REPO != "/repo":
+        # background sweeps run against a snapshot of the repository (VERIF_REPO): same module
+        # file with the replace directive pointing there
+        alt = os.path.join(d, "alt.mod")
+        with open(alt, "w") as f:
+            f.write(open(os.path.join(HARNESS, "go.mod")).read().replace("=> /repo", "=> " + REPO))
+        if os.path.exists(os.path.join(HARNESS, "go.sum")):
+            shutil.copy(os.path.join(HARNESS, "go.sum"), os.path.join(d, "alt.sum"))
+        cmd.insert(2, "-modfile=" + alt)
     cmd.append(".")
     rc, out, err = sh(cmd, cwd=HARNESS, env=go_env(), timeout=900)
     if rc != 0:
